@@ -401,8 +401,14 @@ static void one_case(char* line) {
   for (char* p = f_sched; *p; p++) seed = mix(seed, (uint64_t)*p);
   struct Node* progs[MAXT];
   nthreads = 0;
-  char* pt;
-  while (nthreads < MAXT && (pt = next_tok(&s, '|')) != NULL) { char* q = pt; progs[nthreads++] = parse_block(&q, 0, NULL); }
+  /* programs are separated by '|'; an empty program is a thread that does nothing */
+  while (nthreads < MAXT && s != NULL) {
+    char* bar = strchr(s, '|');
+    if (bar) *bar = 0;
+    char* q = s;
+    progs[nthreads++] = parse_block(&q, 0, NULL);
+    s = bar ? bar + 1 : NULL;
+  }
   if (nthreads == 0) { P("BADCASE"); return; }
 
   EX[0] = KeyError; EX[1] = ValueError; EX[2] = TypeError; EX[3] = IOError; EX[4] = IndexOutOfBoundsError; EX[5] = ClassError;
